@@ -5,6 +5,7 @@ import FsVerif.Proofs.PosExtra
 import FsVerif.Proofs.PrioReq
 import FsVerif.Proofs.FleetSorted
 import FsVerif.Proofs.SlotSorted
+import FsVerif.Proofs.Fcfs
 namespace FsVerif.Props.C05
 open FsVerif PosStore
 
@@ -93,5 +94,36 @@ def demoFleetPrio : List FleetStore.Op := [.reservePutP 0 0, .reservePutP 1 2, .
 
 example : ((FleetStore.run (FleetStore.init { cap := some 1, delay := 4, transit := 1 }) demoFleetPrio).b.putQ.map (fun t => (t.id, t.prio))) = [(2, -1), (1, 2)] := by
   decide
+
+/-! ### stores WITHOUT priorities serve strictly first-come-first-served: BufferStore (through the Buffer edge) and the continuous
+conveyor's BeltStore.  In every reachable state — any operation sequence, every kernel event, no assumption on the client — both request
+queues are in arrival order (`Arrival`: token ids strictly increasing, ids are handed out in arrival order); the trigger functions only
+ever grant the head of a queue; use and cancellation of other requests remove entries, a new request is appended at the tail: nothing
+is ever reordered (`Proofs/Fcfs.lean`: the queues of the next state are sublists of the previous ones, or the previous ones plus the new
+token at the end). -/
+
+theorem buf_fcfs (cfg : BufCfg) (ops : List BufStore.Op) :
+    Arrival (BufStore.run (BufStore.init cfg) ops).putQ ∧ Arrival (BufStore.run (BufStore.init cfg) ops).getQ :=
+  let h := BufStore.run_aq ops _ (BufStore.init_aq cfg)
+  ⟨h.ap, h.ag⟩
+
+theorem buf_only_head_granted (s : BufStore) :
+    (s.trigPut.putQ = s.putQ ∨ ∃ t, s.putQ = t :: s.trigPut.putQ ∧ s.trigPut.putRes = s.putRes ++ [t]) ∧
+    (s.trigGet.getQ = s.getQ ∨ ∃ t, s.getQ = t :: s.trigGet.getQ ∧ s.trigGet.getRes = s.getRes ++ [t]) :=
+  ⟨BufStore.trigPut_head s, BufStore.trigGet_head s⟩
+
+theorem cbelt_fcfs (cfg : CCfg) (ops : List CBelt.Op) :
+    Arrival (CBelt.run (CBelt.init cfg) ops).putQ ∧ Arrival (CBelt.run (CBelt.init cfg) ops).getQ :=
+  let h := CBelt.run_aq ops _ (CBelt.init_aq cfg)
+  ⟨h.ap, h.ag⟩
+
+theorem cbelt_only_head_granted (s : CBelt) :
+    (s.trigPut.putQ = s.putQ ∨ ∃ t, s.putQ = t :: s.trigPut.putQ ∧ s.trigPut.putRes = s.putRes ++ [t]) ∧
+    (s.trigGet.getQ = s.getQ ∨ ∃ t, s.getQ = t :: s.trigGet.getQ ∧ s.trigGet.getRes = s.getRes ++ [t]) :=
+  ⟨CBelt.trigPut_head s, CBelt.trigGet_head s⟩
+
+/-- non-vacuity: three space requests on a full buffer of capacity 1 wait in arrival order, the middle one is cancelled -/
+example : ((BufStore.run (BufStore.init { cap := some 1, mode := .fifo })
+    [.reservePut 0, .reservePut 1, .reservePut 2, .reservePut 3, .cancelPut 2]).putQ.map (·.id)) = [1, 3] := by decide
 
 end FsVerif.Props.C05
